@@ -9,6 +9,7 @@ package main
 import (
 	"fmt"
 	"math"
+	"os"
 	"runtime/debug"
 	"sort"
 	"strconv"
@@ -382,7 +383,7 @@ func strFamilies(tier string) []*core.Family {
 	needleLen := 3
 	N := newStrSet(alpha, needleLen)
 	nN := N.size()
-	fams = append(fams, &core.Family{Name: "str-find", Size: nS * nN,
+	fams = append(fams, &core.Family{Name: "str-find", Size: nS * nN, BudgetSeconds: budget(tier, 20, 100),
 		Show: func(i uint64) string {
 			d := dec(i, nN, nS)
 			return fmt.Sprintf("string.find(%q, %q [, init [, true]]) for init absent and every init of the position set", S.str(d[1]), N.str(d[0]))
@@ -924,7 +925,7 @@ func tabFamilies(tier string) []*core.Family {
 		nDest
 	)
 	destName := []string{"", "same", "other"}
-	fams = append(fams, &core.Family{Name: "tab-move", Size: nQH * nKinds * nDest * nP * nP,
+	fams = append(fams, &core.Family{Name: "tab-move", Size: nQH * nKinds * nDest * nP * nP, BudgetSeconds: budget(tier, 40, 150),
 		Show: func(i uint64) string {
 			d := dec(i, nKinds, nDest, nP, nP, nQH)
 			s := seqStr(seqOf(A4, QH.at(d[4])))
@@ -1374,7 +1375,7 @@ func sortFamilies(tier string) []*core.Family {
 		}
 		return uint64(n)
 	})
-	fams = append(fams, &core.Family{Name: "sort-small", Size: ms.size() * nKinds,
+	fams = append(fams, &core.Family{Name: "sort-small", Size: ms.size() * nKinds, BudgetSeconds: budget(tier, 40, 500),
 		Show: func(i uint64) string {
 			return fmt.Sprintf("table.sort(%s as %s [, cmp]) for cmp in default,lt,gt,key(a//2),false,true,alternating,le,raise@1/2/4/7,yield@1/3", intSeqStr(ms.at(i/nKinds)), kindName[i%nKinds])
 		},
@@ -1414,7 +1415,7 @@ func sortFamilies(tier string) []*core.Family {
 		panic("binAt")
 	}
 	longModes := []cmpMode{cmpModes[0], cmpModes[2], cmpModes[4], cmpModes[5], cmpModes[6], cmpModes[7], {"raise", 20, false, ltI}, {"yield", 5, false, ltI}}
-	fams = append(fams, &core.Family{Name: "sort-binary", Size: tot * 2,
+	fams = append(fams, &core.Family{Name: "sort-binary", Size: tot * 2, BudgetSeconds: budget(tier, 30, 150),
 		Show: func(i uint64) string {
 			return fmt.Sprintf("table.sort(%s as %s [, cmp]) for cmp in default,gt,false,true,alternating,le,raise@20,yield@5", intSeqStr(binAt(i/2)), kindName[i%2])
 		},
@@ -1428,13 +1429,13 @@ func sortFamilies(tier string) []*core.Family {
 			return c.out()
 		}})
 
-	maxLen := uint64(130)
+	maxLen := uint64(100)
 	if tier == "thorough" {
 		maxLen = 300
 	}
 	nPat := uint64(len(patNames))
 	patModes := append(append([]cmpMode{}, cmpModes[:8]...), cmpMode{"raise", 50, false, ltI}, cmpMode{"yield", 7, false, ltI})
-	fams = append(fams, &core.Family{Name: "sort-patterns", Size: maxLen * nPat * nKinds,
+	fams = append(fams, &core.Family{Name: "sort-patterns", Size: maxLen * nPat * nKinds, BudgetSeconds: budget(tier, 30, 120),
 		Show: func(i uint64) string {
 			d := dec(i, nKinds, nPat, maxLen)
 			return fmt.Sprintf("table.sort on the %s input of length %d as %s, all comparison modes", patNames[d[1]], d[2]+9, kindName[d[0]])
@@ -1519,6 +1520,20 @@ func sortFamilies(tier string) []*core.Family {
 			return c.out()
 		}})
 	return fams
+}
+
+// budget is the wall-clock cap of a large family (seconds).  On 16 idle cores
+// every family finishes well inside it (see NOTES.md); the cap only matters on
+// a loaded machine, where the run is then reported as not exhaustive instead
+// of overrunning the tier budget.
+func budget(tier string, quick, thorough int) int {
+	if os.Getenv("C19_NOBUDGET") != "" {
+		return 0 // development: measure the full families on a loaded machine
+	}
+	if tier == "thorough" {
+		return thorough
+	}
+	return quick
 }
 
 func families(tier string) []*core.Family {
